@@ -93,6 +93,11 @@ def run(ctx):
             if inner['kind'] != 'ScaledAsset':
                 rng.choice(outer)['name'] = inner['name']
     specs += same
+    # split problems (the value of a second optimize() on the same object is the same value again)
+    spl = gen.gen_many(ctx.seed, n // 4, dict(CFG, p_coarse=0.0, p_periodic=0.0, freqs=['h'], tzs=[None], T=(6, 10), p_unaligned_end=0.0), 'c04sp_')
+    for sp in spl:
+        sp['opts']['split'] = '3h'
+    specs += spl
     specs = ctx.specs(specs)
     res = C.run_impl('portfolio', specs)
     exprs, owners = [], []
@@ -100,6 +105,13 @@ def run(ctx):
         ctx.count('status:' + str(o.get('status')))
         if o.get('status') != 'ok':
             continue
+        s_ = o.get('split')
+        if isinstance(s_, dict) and s_.get('solve') == 'optimal' and isinstance(s_.get('again'), dict):
+            ag = s_['again']
+            ctx.cov['impl_oracle_evaluations'] += 1
+            if len(ag['x']) != len(s_['x']) or abs(ag['value'] - s_['value']) > 1e-6 * (1 + abs(s_['value'])):
+                ctx.violation('impl-violation', {'spec': sp, 'mode': 'split problem optimised a second time', 'observed': {'value': [s_['value'], ag['value']], 'entries of x': [len(s_['x']), len(ag['x'])]},
+                                                 'expected': 'the reported value is minus cost times the returned vector of THIS run'}, trigger={'what': 'second optimize of a split problem'})
         for a in sp['assets']:
             ctx.count('kind:' + a['kind'])
         prob = o['problem']
